@@ -276,3 +276,26 @@ func writeDescr(w *model.Write) string {
 }
 
 var tagArms = []string{"StartTag", "EndTag", "SelfClosingTag"}
+
+// inArm keeps only the atoms that can be constrained inside the arm: atoms occurring in a branch
+// condition of one of the arm's blocks, loop-header variables, and event variables.
+func (sc *SC) inArm(arm string, atoms []int) []int {
+	a := sc.S.Arms[arm]
+	if a == nil {
+		return atoms
+	}
+	occ := map[int]bool{}
+	for b := range a.Blocks {
+		if ifi, ok := b.Instrs[len(b.Instrs)-1].(*ssa.If); ok {
+			sc.A.Cond(ifi.Cond).Atoms(occ)
+		}
+	}
+	var out []int
+	for _, i := range atoms {
+		at := sc.A.Atoms[i]
+		if occ[i] || at.Ev || (at.Phi != nil && (at.Phi.Block() == sc.S.Header || a.Blocks[at.Phi.Block()])) {
+			out = append(out, i)
+		}
+	}
+	return out
+}
